@@ -264,7 +264,7 @@ Qed.
 Lemma step_S e : S (step cfg FUEL e).
 Proof.
   destruct e as [accept ready0 writable now|c n]; simpl.
-  2:{ apply S_modify_aux; intros; simpl; auto. }
+  2:{ apply S_modify_aux. intros s. destruct (flookup c (faults s)) as [k|]; [destruct (k <=? 0)|]; simpl; auto. }
   apply S_get. intros s0 Hs0. revert s0 Hs0. intros s0.
   generalize (filter (fun x => m_reg (find_mod (fst x) (mods s0))) ready0). intros ready. revert s0.
   apply S_bind; [|intros _; apply periodic_S].
